@@ -1,5 +1,5 @@
 """C04 — STOPGAP <-> cryoCAT conversion is a lossless renaming with parity half-sets (DESIGN.md section 4, C04)."""
-import os, ast, math, tempfile, warnings, traceback
+import os, re, ast, math, tempfile, warnings, traceback
 import core
 from core import f2b, b2f
 
@@ -17,22 +17,29 @@ DOC_COLUMNS = ["motl_idx", "tomo_num", "object", "subtomo_num", "halfset", "orig
                "x_shift", "y_shift", "z_shift", "phi", "psi", "the", "class"]
 SPECIFIER = "data_stopgap_motivelist"
 MAXABS = 1e15
+STAR_TEXT_LIMIT = 400000      # characters of a written file handed to the proved Lean reader (a 300-particle file has ~70 000)
 ID_COLS = ["subtomo_id", "tomo_id", "object_id", "class"]
 
-RULE = ("export cases: particle lists of N in 1..300 particles (quick: mostly <=40), the 20 fields drawn from realistic values (integer/fractional "
-        "coordinates, shifts incl. exact .5 ties, angles, scores with many decimals, values printed in exponent form) and arbitrary finite values |v|<1e15 "
-        "(gauss*10^k, k in -8..14, +-0), non-sequential subtomogram numbers (random, repeated, large, 0; shares with negative numbers, numbers beyond 2^53 "
-        "and non-integral numbers), id columns as float64 or int64, DataFrame columns in canonical or shuffled order, row index default / filtered (gaps) / "
-        "shuffled labels / offset, x reset_index in {omitted, False, True} x update_coord in {omitted, False, True} (an omitted keyword exercises the "
-        "library default, ~30 % each); each step is run in memory (StopgapMotl.convert_to_sg_motl), via file (StopgapMotl(df).write_out -> own STAR parser "
-        "-> StopgapMotl(path)) and through emmotl2stopgap, all three on the SAME caller-owned DataFrame object, which is compared before/after every call. "
-        "~32 % of the export cases have a second step in the same process: a different list (other count) written to and loaded from the SAME two paths, "
+RULE = ("every run starts with the boundary counts N = 1, 2, 63, 64, 65, 128, 255, 256, 257, 300 in BOTH directions (content random per seed); then "
+        "export cases: particle lists of N in 1..300 particles (quick: mostly <=40), the 20 fields drawn from realistic values (integer/fractional "
+        "coordinates, shifts incl. exact .5 ties, ~12 % of the particles next to / below the origin so that x+shift is a NEGATIVE exact half on x, y and z, "
+        "angles with many or with 2-3 decimals, scores with many decimals, values printed in exponent form), arbitrary finite values |v|<1e15 "
+        "(gauss*10^k, k in -8..14, +-0) or whole numbers only (~8 %: every column int64, as read from an all-integer file), non-sequential subtomogram "
+        "numbers (random, repeated, large, 0; shares with negative numbers, numbers beyond 2^53 and non-integral numbers), ~15 % with REPEATED particles "
+        "(exact copies of whole rows p,q,p and rows sharing only the number), id columns as float64 or int64 (sometimes also the coordinates / geom "
+        "columns), DataFrame columns in canonical or shuffled order, row index default / filtered (gaps) / shuffled / offset / DUPLICATED labels, "
+        "x reset_index in {omitted, False, True} x update_coord in {omitted, False, True} (an omitted keyword exercises the library default, ~30 % each); "
+        "each step is run in memory (StopgapMotl.convert_to_sg_motl), via file (StopgapMotl(df).write_out -> own STAR parser + proved Lean reader -> "
+        "StopgapMotl(path), then StopgapMotl(<that object>)), through emmotl2stopgap, and through the wrappers Motl(df).write_out(path, 'stopgap') -> "
+        "Motl.load(path, 'stopgap') (motl_type positional or by keyword), all on the SAME caller-owned DataFrame object, which is compared before/after every call. "
+        "~32 % of the export cases (N < 128) have a second step in the same process: a different list (other count) written to and loaded from the SAME paths, "
         "or the caller's frame edited in place and converted / written again; the second step is judged exactly like the first. "
-        "import cases: STOPGAP tables with the 16 columns in any order and row index default / filtered / shuffled / offset (sometimes one extra column; "
-        "rarely one of the 14 columns missing -> KeyError expected; rarely a text cell in a numeric column -> the model must reject, nothing is demanded), "
-        "through StopgapMotl(sg_df) and stopgap2emmotl(sg_df) on the same frame object. non-trivial = N>=2 and (export: subtomogram numbers of both "
-        "parities, not equal to 1..N, at least 10 distinct values among the 14 shared fields of a particle; import: column order != documented order); "
-        "distinct = distinct case content")
+        "import cases: STOPGAP tables of N in 1..300 rows with the 16 columns in any order and row index default / filtered / shuffled / offset / duplicated "
+        "(sometimes one extra column, repeated rows, all-integer tables; rarely one of the 14 columns missing -> KeyError expected; rarely a text cell in a "
+        "numeric column -> the model must reject, nothing is demanded), through StopgapMotl(sg_df) and stopgap2emmotl(sg_df) on the same frame object. "
+        "dtypes are recorded (stats), never judged: any numeric dtype with equal values is accepted, a numeric field returned as text is a finding. "
+        "non-trivial = N>=2 and (export: subtomogram numbers of both parities, not equal to 1..N, at least 10 distinct values among the 14 shared fields "
+        "of a particle; import: column order != documented order); distinct = distinct case content")
 ASSUMPTIONS = [
     "STAR layer: theorem via_file_c02 derives the file round trip from C02's typed_roundtrip for the C02 model of Starfile.write/read; what stays outside the "
     "proof is value -> printed digits (DataFrame.round(6) + repr) and digits -> value (pandas.to_numeric), observed each run: every written file is parsed by the "
@@ -41,13 +48,17 @@ ASSUMPTIONS = [
     "(model: x - 2*floor(x/2) == 0, exact for finite float64); the verified checker does not use it: it decodes the IEEE bit pattern to an integer exactly "
     "(decodeInt) and the driver cross-checks decoding and float parity against the hardware float for every subtomogram number of every case",
     "decimal.Decimal(x).to_integral_value(ROUND_HALF_UP) on a float64 = C round() (half away from zero) = Lean Float.round (compared bit-exactly each run; "
-    "the update_coord clauses are also evaluated directly with exact rational arithmetic)",
+    "the driver also checks on every re-centred sum that Float.round equals the proved exact rule ratRoundAway on the exactly decoded rational, decodeRat). "
+    "Of update_coord=True the statement of C04 needs only that the complete position x+shift survives (spec clause update-position, exact rational "
+    "arithmetic, slack = one ulp of the float64 sum) and that the other fields are untouched; the rounding RULE (integer coordinate, |shift| <= 1/2, halves "
+    "away from zero: Lean updateCoord_recentred / updateCoord_rat / updateCoord_rat_ties over exact arithmetic) is C05's property, deviations are reported "
+    "as disagreements with the model (corr), as are in-place changes of the caller's DataFrame, which the statement does not mention",
     "numpy float64 +,- = IEEE binary64 = Lean Float (compared bit-exactly in update_coordinates)",
     "pandas.to_numeric parses decimal text to within a few ulp (not correctly rounded; 3 ulp seen at |v|~2e12): the via-file tolerance is 5e-7 + 16 ulp",
     "field values are finite with |v| < 1e15 (subtomogram numbers up to 2^62) (DataFrame.round(6) overflows to inf above 1.8e302; not generated)",
     "a subtomogram number that is no integer is neither even nor odd: its half-set is compared with the model only (corr), never reported as a violated clause",
 ]
-TRUSTED = ["harness STAR tokenizer for the written file (props/c04.py parse_star; cross-checked on every written file of up to ~100 particles against the proved Lean reader starRead = C02 model)", "AST extraction in props/c04.py translate()",
+TRUSTED = ["harness STAR tokenizer for the written file (props/c04.py parse_star; cross-checked on EVERY written file, up to 300 particles, against the proved Lean reader starRead = C02 model)", "AST extraction in props/c04.py translate()",
            "exact decoding of binary64 bit patterns (Model/C04.decodeInt; cross-checked against the hardware float at run time)"]
 
 
@@ -55,66 +66,233 @@ TRUSTED = ["harness STAR tokenizer for the written file (props/c04.py parse_star
 import copy, hashlib
 
 
+_MSG = "<msg>"
+_LOG_ATTRS = ("warn", "warning", "info", "debug", "error", "critical", "exception", "log")
+
+
+def _is_text(node):
+    return isinstance(node, ast.JoinedStr) or (isinstance(node, ast.Constant) and isinstance(node.value, str))
+
+
+def _strip_docstrings(node):
+    for n in ast.walk(node):
+        if isinstance(n, (ast.FunctionDef, ast.AsyncFunctionDef, ast.ClassDef)) and n.body and isinstance(n.body[0], ast.Expr) \
+                and isinstance(n.body[0].value, ast.Constant) and isinstance(n.body[0].value.value, str):
+            n.body = n.body[1:] or [ast.Pass()]
+
+
+class _Neutral(ast.NodeTransformer):
+    """H1: what a harmless edit may change is removed before anything is compared -- type annotations (`x: T = v` is `x = v`, a bare
+    `x: T` is no statement), the TEXT of exception / warning / log / print messages (the exception type and the call stay), and the
+    two spellings of the same Series operator (`s.mod(m)` is `s % m`, `s.eq(k)` is `s == k`)."""
+    def visit_arg(self, node):
+        node.annotation = None
+        return node
+    def visit_FunctionDef(self, node):
+        node.returns = None
+        self.generic_visit(node)
+        if not node.body:
+            node.body = [ast.Pass()]
+        return node
+    visit_AsyncFunctionDef = visit_FunctionDef
+    def visit_AnnAssign(self, node):
+        self.generic_visit(node)
+        if node.value is None:
+            return None
+        return ast.copy_location(ast.Assign(targets=[node.target], value=node.value), node)
+    def visit_Raise(self, node):
+        self.generic_visit(node)
+        if isinstance(node.exc, ast.Call):
+            node.exc.args = [ast.Constant(_MSG) if _is_text(x) else x for x in node.exc.args]
+            for kw in node.exc.keywords:
+                if _is_text(kw.value):
+                    kw.value = ast.Constant(_MSG)
+        return node
+    def visit_Expr(self, node):
+        self.generic_visit(node)
+        v = node.value
+        if isinstance(v, ast.Call):
+            f = v.func
+            if (isinstance(f, ast.Name) and f.id == "print") or (isinstance(f, ast.Attribute) and f.attr in _LOG_ATTRS):
+                v.args = [ast.Constant(_MSG) if _is_text(x) else x for x in v.args]
+        return node
+    def visit_Call(self, node):
+        self.generic_visit(node)
+        f = node.func
+        if isinstance(f, ast.Attribute) and len(node.args) == 1 and not node.keywords:
+            if f.attr == "mod":
+                return ast.copy_location(ast.BinOp(left=f.value, op=ast.Mod(), right=node.args[0]), node)
+            if f.attr == "eq":
+                return ast.copy_location(ast.Compare(left=f.value, ops=[ast.Eq()], comparators=[node.args[0]]), node)
+        return node
+
+
+def _is_init_stmt(st):
+    """`super().__init__(...)` or `self.<attr> = <expression that reads no local and no attribute of self>`"""
+    if isinstance(st, ast.Expr) and isinstance(st.value, ast.Call) and ast.unparse(st.value.func) == "super().__init__":
+        return True
+    if isinstance(st, ast.Assign) and len(st.targets) == 1 and isinstance(st.targets[0], ast.Attribute) \
+            and isinstance(st.targets[0].value, ast.Name) and st.targets[0].value.id == "self":
+        reads = {n.id for n in ast.walk(st.value) if isinstance(n, ast.Name)}
+        return "self" not in reads and all(not re.fullmatch(r"[av]\d+", r) for r in reads)
+    return False
+
+
 def _canon(fn):
-    """copy of a FunctionDef with the docstring dropped and every parameter / local name replaced by a positional placeholder
-    (`a0, a1, ...` for parameters other than self/cls, `v0, v1, ...` for names bound in the body, in order of first binding):
-    the result is insensitive to renaming of local variables and sensitive to every change of structure."""
+    """copy of a FunctionDef made insensitive to harmless edits and sensitive to every change of structure:
+    docstrings dropped (also of nested defs); annotations, message texts and operator spellings neutralised (`_Neutral`);
+    every parameter / local name replaced by a positional placeholder -- `a0, a1, ...` for parameters other than self/cls,
+    `v0, v1, ...` for the names bound in the body, numbered by BINDING occurrence in textual order (assignment targets, loop and
+    comprehension targets, `with ... as`, `except ... as`, walrus, lambda / nested-def parameters, local imports); every `_`
+    discard is a binding of its own (`a, _, _ = f()` and `a, b, c = f()` with b, c unused have the same normal form);
+    in an `__init__` the leading run of independent initialisers (`super().__init__()`, `self.x = <no local, no self>`) is
+    sorted, since their order is not observable.  `fn._orig` maps every placeholder back to the identifier of the source."""
     fn = copy.deepcopy(fn)
-    if fn.body and isinstance(fn.body[0], ast.Expr) and isinstance(fn.body[0].value, ast.Constant) and isinstance(fn.body[0].value.value, str):
-        fn.body = fn.body[1:] or [ast.Pass()]
-    names = {}
+    _strip_docstrings(fn)
+    fn = _Neutral().visit(fn)
+    for n in ast.walk(fn):                       # a block emptied by the removal of a bare annotation
+        if isinstance(getattr(n, "body", None), list) and not n.body:
+            n.body = [ast.Pass()]
+    ast.fix_missing_locations(fn)
+    names = {}          # current name -> placeholder
+    orig = {}           # placeholder -> source identifier
     params = [a for a in fn.args.posonlyargs + fn.args.args + fn.args.kwonlyargs] + [a for a in (fn.args.vararg, fn.args.kwarg) if a]
     k = 0
     for a in params:
         if a.arg in ("self", "cls"):
             continue
-        names[a.arg] = f"a{k}"; k += 1
+        names[a.arg] = f"a{k}"; orig[f"a{k}"] = a.arg; k += 1
+    counter = [0]
+    discards = []       # placeholders of the `_` bindings, in textual order (filled by pass 1, replayed by pass 2)
+    state = {"pass": 1, "next_discard": 0}
 
-    class Bind(ast.NodeVisitor):
-        def __init__(self):
-            self.n = 0
-        def bind(self, name):
-            if name not in names and name not in ("self", "cls"):
-                names[name] = f"v{self.n}"; self.n += 1
-        def visit_Name(self, node):
-            if isinstance(node.ctx, ast.Store):
-                self.bind(node.id)
-        def visit_FunctionDef(self, node):
-            if node is not fn:
-                self.bind(node.name)
-                for a in node.args.posonlyargs + node.args.args + node.args.kwonlyargs:
-                    self.bind(a.arg)
-            self.generic_visit(node)
-        def visit_Assign(self, node):       # value first is evaluation order, but binding order = textual order of targets
-            for t in node.targets:
-                self.visit(t)
-            self.visit(node.value)
-
-    Bind().visit(fn)
+    def bind(name):
+        if name in ("self", "cls"):
+            return name
+        if name == "_":
+            if state["pass"] == 1:
+                ph = f"v{counter[0]}"; counter[0] += 1
+                discards.append(ph); orig[ph] = "_"
+            else:
+                ph = discards[state["next_discard"]]; state["next_discard"] += 1
+            names["_"] = ph
+            return ph
+        if name not in names:
+            ph = f"v{counter[0]}"; counter[0] += 1
+            names[name] = ph; orig[ph] = name
+        return names[name]
 
     class Ren(ast.NodeTransformer):
+        """one pass in textual (binding) order: a Store binds (or re-uses the placeholder of) a name, a Load is replaced by the
+        placeholder of the latest binding of that name"""
         def visit_Name(self, node):
-            if node.id in names:
+            if isinstance(node.ctx, ast.Store):
+                node.id = bind(node.id)
+            elif node.id in names:
                 node.id = names[node.id]
             return node
-        def visit_arg(self, node):
-            if node.arg in names:
-                node.arg = names[node.arg]
+        def visit_Assign(self, node):
+            node.value = self.visit(node.value)           # evaluated first: `_` on the right is the previous discard
+            node.targets = [self.visit(t) for t in node.targets]
+            return node
+        def visit_AugAssign(self, node):
+            node.value = self.visit(node.value)
+            node.target = self.visit(node.target)
+            return node
+        def visit_NamedExpr(self, node):
+            node.value = self.visit(node.value)
+            node.target = self.visit(node.target)
+            return node
+        def _comp(self, node):
+            for g in node.generators:                     # generators bind before the element expression reads
+                g.iter = self.visit(g.iter)
+                g.target = self.visit(g.target)
+                g.ifs = [self.visit(i) for i in g.ifs]
+            for fld in ("elt", "key", "value"):
+                if hasattr(node, fld):
+                    setattr(node, fld, self.visit(getattr(node, fld)))
+            return node
+        visit_ListComp = visit_SetComp = visit_GeneratorExp = visit_DictComp = _comp
+        def visit_For(self, node):
+            node.iter = self.visit(node.iter)
+            node.target = self.visit(node.target)
+            node.body = [self.visit(s) for s in node.body]
+            node.orelse = [self.visit(s) for s in node.orelse]
+            return node
+        def visit_ExceptHandler(self, node):
+            if node.type is not None:
+                node.type = self.visit(node.type)
+            if node.name:
+                node.name = bind(node.name)
+            node.body = [self.visit(s) for s in node.body]
+            return node
+        def visit_alias(self, node):
+            local = node.asname or node.name.split(".")[0]
+            ph = bind(local)
+            if node.asname:
+                node.asname = ph
+            return node
+        def _params(self, args):
+            for a in args.posonlyargs + args.args + args.kwonlyargs + [x for x in (args.vararg, args.kwarg) if x]:
+                a.arg = bind(a.arg)
+            args.defaults = [self.visit(d) for d in args.defaults]
+            args.kw_defaults = [self.visit(d) if d is not None else None for d in args.kw_defaults]
+        def visit_Lambda(self, node):
+            self._params(node.args)
+            node.body = self.visit(node.body)
             return node
         def visit_FunctionDef(self, node):
-            if node is not fn and node.name in names:
-                node.name = names[node.name]
-            self.generic_visit(node)
+            if node is not self.root:
+                node.name = bind(node.name)
+                self._params(node.args)
+            node.body = [self.visit(s) for s in node.body]
             return node
+        def run(self, root):
+            self.root = root
+            self.visit(root)
 
-    Ren().visit(fn)
+    Ren().run(copy.deepcopy(fn))       # pass 1: number the bindings (a name read before its textual binding, e.g. in a loop, is known in pass 2)
+    state["pass"] = 2
+    names.pop("_", None)
+    Ren().run(fn)
+    if fn.name == "__init__":
+        lead = 0
+        while lead < len(fn.body) and _is_init_stmt(fn.body[lead]):
+            lead += 1
+        fn.body[:lead] = sorted(fn.body[:lead], key=ast.unparse)
+    fn._orig = orig
     return fn
+
+
+def _orig_text(fn, text):
+    """a normalised text with the placeholders replaced by the identifiers of the source (for messages, H2)"""
+    m = getattr(fn, "_orig", {})
+    return re.sub(r"\b[av]\d+\b", lambda g: m.get(g.group(0), g.group(0)), text)
+
+
+def _dump_lines(fn):
+    """normalised statements of a canonical function, one per line (no blanks): signature defaults first"""
+    sig = ",".join(ast.unparse(d) for d in fn.args.defaults + [d for d in fn.args.kw_defaults if d is not None])
+    out = [f"defaults({sig})"]
+    for st in fn.body:
+        out += [ln.replace(" ", "") for ln in ast.unparse(st).split("\n") if ln.strip()]
+    return out
 
 
 def _dump(fn):
     """normalised text of a canonical function: defaults of the signature + statements (no blanks)"""
-    sig = ",".join(ast.unparse(d) for d in fn.args.defaults + [d for d in fn.args.kw_defaults if d is not None])
-    return (f"defaults({sig});" + ";".join(ast.unparse(st) for st in fn.body)).replace(" ", "").replace("\n", ";")
+    return ";".join(_dump_lines(fn))
+
+
+def _first_diff(fn, got, want):
+    """position and text of the first normalised statement that differs from the reviewed body (expected vs found, the found one
+    also with the identifiers of the source)"""
+    g, w = got.split(";"), want.split(";")
+    for i in range(max(len(g), len(w))):
+        a, b = (g[i] if i < len(g) else "<end of body>"), (w[i] if i < len(w) else "<end of body>")
+        if a != b:
+            return f"statement {i}: expected `{b}`, found `{a}` (source: `{_orig_text(fn, a)}`)"
+    return "no difference"
 
 
 def _sig_default(src, rel, qual, name):
@@ -131,8 +309,33 @@ def _sig_default(src, rel, qual, name):
 
 BODY_FUNCS = ["StopgapMotl.__init__", "StopgapMotl.read_in", "StopgapMotl.convert_to_motl", "StopgapMotl.convert_to_sg_motl",
               "StopgapMotl.sg_df_reset_index", "StopgapMotl.write_out", "stopgap2emmotl", "emmotl2stopgap"]
-# digests of the reviewed bodies (documented fallback; the Lean side holds its own hand-written copy in Model/C04.docBodyDigests)
-DOC_DIGESTS = {'StopgapMotl.__init__': 'd7fb346f05eaacb5', 'StopgapMotl.read_in': 'e08d7b6f24613301', 'StopgapMotl.convert_to_motl': '41bddc0a26f2ac2c', 'StopgapMotl.convert_to_sg_motl': '35c4d762c513372b', 'StopgapMotl.sg_df_reset_index': 'a328d3752cd8e76f', 'StopgapMotl.write_out': '6150d53d35833acb', 'stopgap2emmotl': 'b93283c9d4d67905', 'emmotl2stopgap': '43955f188247229d'}
+# the reviewed, normalised bodies (written down from the reviewed source; `_canon` + `_dump`): a body anchor compares the current
+# body with this text statement by statement and names the first statement that differs
+DOC_DUMPS = {
+    'StopgapMotl.__init__':
+        "defaults(None);self.sg_df=pd.DataFrame();super().__init__();ifa0isnotNone:;ifisinstance(a0,StopgapMotl):;self.df=a0.df.copy();self.sg_df=a0.sg_df.copy();elifisinstance(a0,pd.DataFrame):;self.check_df_type(a0);elifisinstance(a0,str):;v0=self.read_in(a0);self.convert_to_motl(v0);else:;raiseUserInputError('<msg>')",
+    'StopgapMotl.read_in':
+        "defaults();v0,v1,v2=starfileio.Starfile.read(a0);if'data_stopgap_motivelist'notinv1:;raiseUserInputError('<msg>');else:;v3=starfileio.Starfile.get_specifier_id(v1,'data_stopgap_motivelist');v4=v0[v3];returnv4",
+    'StopgapMotl.convert_to_motl':
+        "defaults(False);self.sg_df=a0;forv0,v1inStopgapMotl.pairs.items():;self.df[v0]=a0[v1];ifa1:;ifa0['halfset'].nunique()==2:;self.df['geom3']=[1.0ifv2.lower()=='a'else0.0forv2ina0['halfset']];v3=self.df['geom3'].values%2;v4=1ifv3[0]==1else2;v5=[v4];forv6inrange(1,self.df.shape[0]):;ifv4%2==1andv3[v6]==1or(v4%2==0andv3[v6]==0):;v4+=2;else:;v4+=1;v5.append(v4);self.df['geom3']=self.df['subtomo_id'];self.df['subtomo_id']=v5",
+    'StopgapMotl.convert_to_sg_motl':
+        "defaults(False);v0=pd.DataFrame(data=np.zeros((a0.shape[0],16)),columns=StopgapMotl.columns);forv1,v2inStopgapMotl.pairs.items():;v0[v2]=a0[v1].to_numpy();v0['halfset']=np.where((a0['subtomo_id']%2==0).to_numpy(),'A','B');v0['motl_idx']=v0['subtomo_num'];v0=StopgapMotl.sg_df_reset_index(v0,a1);returnv0",
+    'StopgapMotl.sg_df_reset_index':
+        "defaults(False);ifa1:;a0['motl_idx']=range(1,a0.shape[0]+1);returna0",
+    'StopgapMotl.write_out':
+        "defaults(False,False);ifa1:;self.update_coordinates();ifa0.endswith('.star'):;v0=StopgapMotl.convert_to_sg_motl(self.df,a2);v0.fillna(0,inplace=True);starfileio.Starfile.write([v0],a0,specifiers=['data_stopgap_motivelist']);elifa0.endswith('.em'):;super().write_out(output_path=a0,motl_type='emmotl')",
+    'stopgap2emmotl':
+        'defaults(None,False);v0=StopgapMotl(a0);v1=EmMotl(v0.df);ifa2:;v1.update_coordinates();ifa1isnotNone:;v1.write_out(a1);returnv1',
+    'emmotl2stopgap':
+        'defaults(None,False,False);v0=EmMotl(a0);v1=StopgapMotl(v0.df);ifa2:;v1.update_coordinates();ifa1isnotNone:;v1.write_out(a1,update_coord=False,reset_index=a3);returnv1',
+}
+# sha256 (first 16 hex digits) of the reviewed bodies (the Lean side holds its own hand-written copy in Model/C04.docBodyDigests)
+DOC_DIGESTS = {'StopgapMotl.__init__': '6cd60100075c261e', 'StopgapMotl.read_in': '977330a5ab207af8', 'StopgapMotl.convert_to_motl': '41bddc0a26f2ac2c', 'StopgapMotl.convert_to_sg_motl': 'bd1b72a459e815c1', 'StopgapMotl.sg_df_reset_index': 'a328d3752cd8e76f', 'StopgapMotl.write_out': '6150d53d35833acb', 'stopgap2emmotl': 'b93283c9d4d67905', 'emmotl2stopgap': '43955f188247229d'}
+# helpers on the call path of the entry points: looked up so that the framework's binding discipline (bound once, no re-binding,
+# documented decorators, live object = anchored def) covers them; their behaviour is covered by the correspondence run
+PATH_HELPERS = [("cryocat/cryomotl.py", q) for q in ("Motl.__init__", "Motl.check_df_type", "Motl.check_df_correct_format", "Motl.update_coordinates",
+                                                      "Motl.write_out", "Motl.load", "EmMotl.__init__")] + \
+               [("cryocat/starfileio.py", q) for q in ("Starfile.read", "Starfile.write", "Starfile.get_specifier_id")]
 DOC_DEFAULTS = {"conv_reset": False, "sg_reset": False, "write_update": False, "write_reset": False, "em2sg_update": False,
                 "em2sg_reset": False, "sg2em_update": False, "keep_halfsets": False}
 
@@ -196,7 +399,7 @@ def translate(src):
         a, b, tgt, val = _pairs_loop(fn)
         inner, positional = _strip_positional(val)
         if not (_is_sub(tgt, frame, b) and _is_sub(inner, "a0", a)):
-            raise core.AnchorMissing(f"convert_to_sg_motl loop is not `<frame>[star_key] = <motl_df>[em_key]`: {ast.unparse(tgt)} = {ast.unparse(val)}")
+            raise core.AnchorMissing("convert_to_sg_motl loop is not `<frame>[star_key] = <motl_df>[em_key]`; the source has `" + _orig_text(fn, f"{ast.unparse(tgt)} = {ast.unparse(val)}") + "`")
         return [True, positional]
 
     exp = src.anchor("convert_to_sg_motl:loop stopgap_df[star_key]=motl_df[em_key] (by position)", export_loop)
@@ -205,7 +408,7 @@ def translate(src):
         fn = canon("StopgapMotl.convert_to_motl")
         a, b, tgt, val = _pairs_loop(fn)
         if not (_is_sub(tgt, "self.df", a) and _is_sub(val, "a0", b)):
-            raise core.AnchorMissing(f"convert_to_motl loop is not `self.df[em_key] = <stopgap_df>[star_key]`: {ast.unparse(tgt)} = {ast.unparse(val)}")
+            raise core.AnchorMissing("convert_to_motl loop is not `self.df[em_key] = <stopgap_df>[star_key]`; the source has `" + _orig_text(fn, f"{ast.unparse(tgt)} = {ast.unparse(val)}") + "`")
         return True
 
     imp = src.anchor("convert_to_motl:loop self.df[em_key]=stopgap_df[star_key]", import_loop)
@@ -219,20 +422,22 @@ def translate(src):
                 if not (isinstance(v, ast.Call) and ast.unparse(v.func) in ("np.where", "numpy.where") and len(v.args) == 3):
                     break
                 cond, _ = _strip_positional(v.args[0])
-                # <motl_df>[SRC].mod(M).eq(K)
-                if not (isinstance(cond, ast.Call) and isinstance(cond.func, ast.Attribute) and cond.func.attr == "eq" and len(cond.args) == 1):
+                # (<motl_df>[SRC] % M == K) -- `_canon` has already rewritten `.mod(M).eq(K)` to the operator form
+                if not (isinstance(cond, ast.Compare) and len(cond.ops) == 1 and isinstance(cond.ops[0], ast.Eq) and len(cond.comparators) == 1):
                     break
-                m = cond.func.value
-                if not (isinstance(m, ast.Call) and isinstance(m.func, ast.Attribute) and m.func.attr == "mod" and len(m.args) == 1):
+                m = cond.left
+                if not (isinstance(m, ast.BinOp) and isinstance(m.op, ast.Mod)):
                     break
-                s = m.func.value
+                s = m.left
                 if not (_is_sub(s, "a0") and isinstance(s.slice, ast.Constant)):
                     break
-                vals = [src.literal(x) for x in (m.args[0], cond.args[0], v.args[1], v.args[2])]
+                vals = [src.literal(x) for x in (m.right, cond.comparators[0], v.args[1], v.args[2])]
                 if not (isinstance(vals[0], int) and isinstance(vals[1], int) and vals[0] >= 0 and vals[1] >= 0 and isinstance(vals[2], str) and isinstance(vals[3], str)):
                     break
                 return [s.slice.value] + vals
-        raise core.AnchorMissing('convert_to_sg_motl: <frame>["halfset"] = np.where(<motl_df>[<col>].mod(<m>).eq(<k>)[.to_numpy()], <a>, <b>)')
+        st = next((ast.unparse(n) for n in ast.walk(fn) if isinstance(n, ast.Assign) and _is_sub(n.targets[0], frame, "halfset")), "<no assignment to the halfset column>")
+        raise core.AnchorMissing('convert_to_sg_motl: <frame>["halfset"] = np.where(<motl_df>[<col>].mod(<m>).eq(<k>)[.to_numpy()], <a>, <b>) (or `% <m> == <k>`); '
+                                 f'the source has `{_orig_text(fn, st)}`')
 
     half = src.anchor("convert_to_sg_motl:halfset = np.where(subtomo_id.mod(2).eq(0), A, B)", halfset)
 
@@ -243,7 +448,8 @@ def translate(src):
             if isinstance(n, ast.Assign) and len(n.targets) == 1 and _is_sub(n.targets[0], frame, "motl_idx"):
                 if _is_sub(n.value, frame) and isinstance(n.value.slice, ast.Constant):
                     return n.value.slice.value
-        raise core.AnchorMissing('convert_to_sg_motl: <frame>["motl_idx"] = <frame>[<col>]')
+        st = next((ast.unparse(n) for n in ast.walk(fn) if isinstance(n, ast.Assign) and _is_sub(n.targets[0], frame, "motl_idx")), "<no assignment to the motl_idx column>")
+        raise core.AnchorMissing('convert_to_sg_motl: <frame>["motl_idx"] = <frame>[<col>]; the source has `' + _orig_text(fn, st) + "`")
 
     idx_src = src.anchor("convert_to_sg_motl:motl_idx source column", motl_idx)
 
@@ -285,7 +491,8 @@ def translate(src):
                         if isinstance(stop, ast.BinOp) and isinstance(stop.op, ast.Add) and ast.unparse(stop.left) == "a0.shape[0]" \
                                 and isinstance(stop.right, ast.Constant):
                             return [int(start.value), int(stop.right.value)]
-        raise core.AnchorMissing('sg_df_reset_index: if reset_index: <df>["motl_idx"] = range(<start>, <df>.shape[0] + <k>)')
+        raise core.AnchorMissing('sg_df_reset_index: if reset_index: <df>["motl_idx"] = range(<start>, <df>.shape[0] + <k>); the source has `'
+                                 + _orig_text(fn, "; ".join(ast.unparse(st) for st in fn.body).replace("\n", " ")[:200]) + "`")
 
     rr = src.anchor("sg_df_reset_index:range(1, N+1)", reset_range)
 
@@ -293,7 +500,8 @@ def translate(src):
         fn = canon("StopgapMotl.write_out")          # a0 output_path, a1 update_coord, a2 reset_index
         txt = ast.unparse(fn).replace(" ", "")
         if "StopgapMotl.convert_to_sg_motl(self.df,a2)" not in txt.replace("reset_index=a2", "a2"):
-            raise core.AnchorMissing("write_out: convert_to_sg_motl(self.df, reset_index)")
+            call = next((ast.unparse(n) for n in ast.walk(fn) if isinstance(n, ast.Call) and ast.unparse(n.func).endswith("convert_to_sg_motl")), "<no call of convert_to_sg_motl>")
+            raise core.AnchorMissing("write_out: convert_to_sg_motl(self.df, reset_index); the source has `" + _orig_text(fn, call) + "`")
         for n in ast.walk(fn):
             if isinstance(n, ast.Call) and ast.unparse(n.func).endswith("Starfile.write"):
                 if len(n.args) < 2 or ast.unparse(n.args[1]) != "a0" or not isinstance(n.args[0], ast.List) or len(n.args[0].elts) != 1:
@@ -303,7 +511,8 @@ def translate(src):
                         v = src.literal(kw.value)
                         if isinstance(v, list) and len(v) == 1:
                             return v[0]
-        raise core.AnchorMissing("write_out: Starfile.write([<frame>], output_path, specifiers=[<const>])")
+        call = next((ast.unparse(n) for n in ast.walk(fn) if isinstance(n, ast.Call) and ast.unparse(n.func).endswith("Starfile.write")), "<no call of Starfile.write>")
+        raise core.AnchorMissing("write_out: Starfile.write([<frame>], output_path, specifiers=[<const>]); the source has `" + _orig_text(fn, call) + "`")
 
     wspec = src.anchor("write_out:specifier", write_spec)
 
@@ -323,17 +532,19 @@ def translate(src):
     src.anchor("write_out:update_coordinates before conversion", write_order)
 
     def converter():
-        txt = _dump(canon("emmotl2stopgap"))       # a0 input_motl, a1 output_motl_path, a2 update_coordinates, a3 reset_index
+        fn1 = canon("emmotl2stopgap")
+        txt = _dump(fn1)                            # a0 input_motl, a1 output_motl_path, a2 update_coordinates, a3 reset_index
         need = ["v0=EmMotl(a0)", "v1=StopgapMotl(v0.df)", "ifa2:;v1.update_coordinates()",
                 "v1.write_out(a1,update_coord=False,reset_index=a3)", "returnv1"]
         miss = [x for x in need if x not in txt]
         if miss:
-            raise core.AnchorMissing(f"emmotl2stopgap: {miss}")
-        txt2 = _dump(canon("stopgap2emmotl"))
+            raise core.AnchorMissing(f"emmotl2stopgap: statements not found {miss}; the source has `{_orig_text(fn1, txt)}`")
+        fn2 = canon("stopgap2emmotl")
+        txt2 = _dump(fn2)
         need2 = ["v0=StopgapMotl(a0)", "v1=EmMotl(v0.df)", "returnv1"]
         miss = [x for x in need2 if x not in txt2]
         if miss:
-            raise core.AnchorMissing(f"stopgap2emmotl: {miss}")
+            raise core.AnchorMissing(f"stopgap2emmotl: statements not found {miss}; the source has `{_orig_text(fn2, txt2)}`")
         return True
 
     src.anchor("emmotl2stopgap/stopgap2emmotl: go through StopgapMotl, pass reset_index", converter)
@@ -368,9 +579,34 @@ def translate(src):
 
     digests, dumps = [], []
     for q in BODY_FUNCS:
-        d = src.anchor(f"body:{q}", lambda q=q: _dump(canon(q)))
+        got = {}
+
+        def body(q=q, got=got):
+            fn = canon(q)
+            got["dump"] = _dump(fn)
+            if got["dump"] != DOC_DUMPS[q]:
+                raise core.AnchorMissing(f"{q} differs from the reviewed body at {_first_diff(fn, got['dump'], DOC_DUMPS[q])}")
+            return got["dump"]
+
+        src.anchor(f"body:{q}", body)
+        d = got.get("dump")
         dumps.append((q, d))
         digests.append((q, hashlib.sha256(d.encode()).hexdigest()[:16] if d is not None else DOC_DIGESTS.get(q, "")))
+
+    # the wrapper entry points sta.py / tmana.py use: the "stopgap" branch of Motl.write_out / Motl.load (the other branches belong to other properties)
+    def branch(qual, var, what):
+        fn = canon(qual)
+        for n in ast.walk(fn):
+            if isinstance(n, ast.If):
+                t = ast.unparse(n.test).replace(" ", "")
+                if t in (f"{var}.lower()=='stopgap'", f"{var}=='stopgap'"):
+                    return [ast.unparse(st).replace(" ", "") for st in n.body]
+        raise core.AnchorMissing(f"{qual}: branch `if/elif {_orig_text(fn, var)}[.lower()] == 'stopgap'` ({what})")
+
+    wrap_w = src.anchor("Motl.write_out:stopgap branch", lambda: branch("Motl.write_out", "a1", "StopgapMotl(self.df).write_out(output_path)"))
+    wrap_l = src.anchor("Motl.load:stopgap branch", lambda: branch("Motl.load", "a1", "return StopgapMotl(input_motl)"))
+    for rel_h, q in PATH_HELPERS:
+        src.anchor(f"helper:{q}", lambda rel_h=rel_h, q=q: bool(src.find(rel_h, q)))
 
     # a missing anchor falls back to the DOCUMENTED value (anchorsOk = false reports it), never to a value that changes the model
     ok_pairs = isinstance(pairs, list) and all(isinstance(k, str) and isinstance(v, str) for k, v in pairs)
@@ -381,6 +617,8 @@ def translate(src):
     exp = exp or [True, True]
     imp = True if imp is None else imp
     order = order if order is not None else ["frame", "loop", "halfset", "motl_idx", "reset", "return"]
+    wrap_w = wrap_w if wrap_w is not None else ["StopgapMotl(self.df).write_out(a0)"]
+    wrap_l = wrap_l if wrap_l is not None else ["returnStopgapMotl(a0)"]
     b = lambda x: "true" if x else "false"
     pair_txt = "[" + ", ".join(f"({core.lean_str(k)}, {core.lean_str(v)})" for k, v in pairs) + "]"
     dig_txt = "[" + ", ".join(f"({core.lean_str(k)}, {core.lean_str(v)})" for k, v in digests) + "]"
@@ -414,6 +652,9 @@ def em2sgUpdateDefault : Bool := {b(dflt["em2sg_update"])}
 def em2sgResetDefault : Bool := {b(dflt["em2sg_reset"])}
 def sg2emUpdateDefault : Bool := {b(dflt["sg2em_update"])}
 def keepHalfsetsDefault : Bool := {b(dflt["keep_halfsets"])}
+-- the "stopgap" branches of the wrappers Motl.write_out(path, motl_type) / Motl.load(path, motl_type) (normalised statements)
+def motlWriteOutStopgap : List String := {core.lean_str_list(wrap_w)}
+def motlLoadStopgap : List String := {core.lean_str_list(wrap_l)}
 -- normalised bodies (parameters a0.., locals v0.., docstrings dropped) and their sha256 digests (first 16 hex digits)
 {dump_txt}
 def bodyDigests : List (String × String) := {dig_txt}
@@ -462,17 +703,36 @@ def _tie(rng):
 def _particle(rng, style):
     if style == "arbitrary":
         p = {c: _arb(rng) for c in MOTL_COLS}
+    elif style == "integer":
+        # what an all-integer STAR / CSV file gives: every field a whole number (every column is then read as int64)
+        p = {c: 0.0 for c in MOTL_COLS}
+        p["score"] = float(rng.randint(0, 1))
+        p["geom1"], p["geom2"], p["geom3"] = float(rng.randint(0, 9)), float(rng.randint(0, 3)), float(rng.randint(0, 1))
+        p["tomo_id"], p["object_id"] = float(rng.randint(1, 300)), float(rng.randint(1, 2000))
+        for c in "xyz":
+            p[c] = float(rng.randint(-8, 8) if rng.random() < 0.2 else rng.randint(1, 4096))
+            p["shift_" + c] = float(rng.randint(-6, 6)) if rng.random() < 0.5 else 0.0
+        p["phi"], p["psi"], p["theta"] = float(rng.randint(-360, 360)), float(rng.randint(-180, 180)), float(rng.randint(0, 180))
+        p["class"] = float(rng.randint(0, 12))
     else:
         frac = rng.random() < 0.4
+        near0 = rng.random() < 0.12           # positions next to / below the origin: x + shift is negative, exact negative halves on x, y AND z
         p = {c: 0.0 for c in MOTL_COLS}
         p["score"] = rng.random() if rng.random() < 0.8 else rng.uniform(-1, 1) * 1e-5
         p["geom1"], p["geom2"], p["geom3"] = float(rng.randint(0, 9)), float(rng.randint(0, 3)), rng.random()
         p["tomo_id"], p["object_id"] = float(rng.randint(1, 300)), float(rng.randint(1, 2000))
         p["subtomo_mean"] = rng.gauss(0, 1)
         for c in "xyz":
+            if near0:
+                p[c] = float(rng.randint(-8, 2))
+                p["shift_" + c] = _tie(rng) if rng.random() < 0.7 else rng.uniform(-6, 6)
+                continue
             p[c] = float(rng.randint(1, 4096)) + (rng.choice([0.0, 0.5, rng.random()]) if frac else 0.0)
             p["shift_" + c] = _tie(rng) if rng.random() < 0.25 else (rng.uniform(-6, 6) if rng.random() < 0.8 else 0.0)
-        p["phi"], p["psi"], p["theta"] = rng.uniform(-360, 360), rng.uniform(-180, 180), rng.uniform(0, 180)
+        if rng.random() < 0.3:                # decimal values off the dyadic grid, as typed / printed with 2-3 decimals
+            p["phi"], p["psi"], p["theta"] = round(rng.uniform(-360, 360), 2), round(rng.uniform(-180, 180), 3), round(rng.uniform(0, 180), 2)
+        else:
+            p["phi"], p["psi"], p["theta"] = rng.uniform(-360, 360), rng.uniform(-180, 180), rng.uniform(0, 180)
         p["class"] = float(rng.randint(0, 12))
     return p
 
@@ -512,41 +772,91 @@ def _opt(rng):
     return None if k < 0.3 else (k < 0.65)
 
 
+BOUNDARY_COUNTS = [1, 2, 63, 64, 65, 128, 255, 256, 257, 300]      # both ends of the quantifier (1..300) and the powers of two writers like to buffer by
+
+
+def _labels(rng, n, index):
+    if index == "filtered":
+        return sorted(rng.sample(range(0, 2 * n + 3), n))
+    if index == "shuffled":
+        labels = list(range(n)); rng.shuffle(labels)
+        return labels
+    if index == "offset":
+        off = rng.randint(1, 50)
+        return list(range(off, off + n))
+    if index == "duplicated":                 # e.g. pd.concat of two lists without ignore_index: labels repeat
+        k = rng.randint(1, max(1, n // 2))
+        return [i % k for i in range(n)]
+    return list(range(n))
+
+
+def _repeat_rows(rng, rows, id_col):
+    """the same particle picked twice: exact copies of whole rows (p, q, p) and rows that only share the subtomogram number"""
+    n = len(rows)
+    if n < 2:
+        return "none"
+    kind = rng.choice(["copies", "copies", "ids", "both"])
+    for i in rng.sample(range(n), max(1, min(n - 1, rng.randint(1, max(1, n // 3))))):
+        j = rng.choice([k for k in range(n) if k != i])
+        if kind in ("copies", "both"):
+            rows[i] = list(rows[j])
+        if kind == "ids" or (kind == "both" and rng.random() < 0.5):
+            rows[i] = list(rows[i]); rows[i][id_col] = rows[j][id_col]
+    return kind
+
+
 def _export_step(rng, tier, n=None, like=None):
     big = {"quick": 0.08, "thorough": 0.15, "search": 0.0}[tier]
     if n is None:
         n = rng.randint(41, 300) if rng.random() < big else (1 if rng.random() < 0.06 else rng.randint(2, 12 if tier == "search" else 40))
-    style = "arbitrary" if rng.random() < 0.35 else "realistic"
+    k = rng.random()
+    style = "arbitrary" if k < 0.33 else ("integer" if k < 0.41 else "realistic")
     rows = []
     ids = _ids(rng, n)
-    int_ids = rng.random() < 0.3 if like is None else like["int_ids"]
+    if style == "integer":
+        ids = [float(int(x)) if abs(x) < 2.0 ** 53 else x for x in ids]
+    int_ids = (rng.random() < 0.3 or style == "integer") if like is None else like["int_ids"]
     for i in range(n):
         p = _particle(rng, style)
         p["subtomo_id"] = ids[i]
         if int_ids:                                   # an int64 column cannot hold -0.0
             for c in ID_COLS:
                 p[c] = p[c] + 0.0
-        rows.append([f2b(p[c]) for c in MOTL_COLS])
+        rows.append([f2b(p[c] + 0.0 if style == "integer" else p[c]) for c in MOTL_COLS])
+    repeated = _repeat_rows(rng, rows, 3) if rng.random() < 0.15 else "none"
     if like is not None:
         index, labels, cols = like["index"], list(like["labels"]), list(like["cols"])
+        int_cols = like.get("int_cols")
     else:
-        index = rng.choices(["range", "filtered", "shuffled", "offset"], [0.4, 0.25, 0.25, 0.1])[0]
-        if index == "filtered":
-            labels = sorted(rng.sample(range(0, 2 * n + 3), n))
-        elif index == "shuffled":
-            labels = list(range(n)); rng.shuffle(labels)
-        elif index == "offset":
-            off = rng.randint(1, 50); labels = list(range(off, off + n))
-        else:
-            labels = list(range(n))
+        index = rng.choices(["range", "filtered", "shuffled", "offset", "duplicated"], [0.38, 0.22, 0.22, 0.1, 0.08])[0]
+        labels = _labels(rng, n, index)
         cols = list(MOTL_COLS)
         if rng.random() < 0.3:
             rng.shuffle(cols)
-    return dict(rows=rows, reset=_opt(rng), update=_opt(rng), index=index, labels=labels, int_ids=int_ids, cols=cols)
+        # which columns are stored as int64 (when all their values are whole numbers): the four id columns; also the coordinates
+        # (picked positions are whole numbers); every column for an all-integer list
+        int_cols = None
+        if style == "integer":
+            int_cols = list(MOTL_COLS)
+        elif int_ids and rng.random() < 0.4:
+            int_cols = ID_COLS + ["x", "y", "z"] + (["geom1", "geom2"] if rng.random() < 0.5 else [])
+    step = dict(rows=rows, reset=_opt(rng), update=_opt(rng), index=index, labels=labels, int_ids=int_ids, cols=cols)
+    if int_cols is not None:
+        step["int_cols"] = int_cols
+    for c in (int_cols if int_cols is not None else (ID_COLS if int_ids else [])):       # an int64 column cannot hold -0.0: the caller's frame has 0
+        j = MOTL_COLS.index(c)
+        for r in rows:
+            if b2f(r[j]) == 0.0:
+                r[j] = f2b(0.0)
+    if repeated != "none":
+        step["repeated"] = repeated
+    if rng.random() < 0.4:
+        step["wrap_kw"] = True          # Motl.write_out(path, motl_type="stopgap") / Motl.load(path, motl_type="stopgap") by keyword
+    return step
 
 
-def _export_case(rng, tier):
-    case = dict(kind="export", **_export_step(rng, tier))
+def _export_case(rng, tier, n=None):
+    case = dict(kind="export", **_export_step(rng, tier, n=n))
     k = rng.random()
     n = len(case["rows"])
     if k < 0.22:        # the same two paths are written and loaded a second time with a DIFFERENT list (usually another count)
@@ -557,8 +867,10 @@ def _export_case(rng, tier):
     return case
 
 
-def _import_case(rng, tier):
-    n = 1 if rng.random() < 0.06 else rng.randint(2, 12 if tier == "search" else 40)
+def _import_case(rng, tier, n=None, plain=False):
+    big = {"quick": 0.08, "thorough": 0.15, "search": 0.0}[tier]
+    if n is None:
+        n = rng.randint(41, 300) if rng.random() < big else (1 if rng.random() < 0.06 else rng.randint(2, 12 if tier == "search" else 40))
     cols = list(DOC_COLUMNS)
     k = rng.random()
     if k < 0.6:
@@ -567,45 +879,62 @@ def _import_case(rng, tier):
         i, j = rng.sample(range(16), 2); cols[i], cols[j] = cols[j], cols[i]
     extra = rng.random() < 0.15
     missing = None
-    if rng.random() < 0.10:
+    if not plain and rng.random() < 0.10:
         missing = rng.choice([s for _, s in DOC_PAIRS])
         cols.remove(missing)
-    style = "arbitrary" if rng.random() < 0.5 else "realistic"
+    k = rng.random()
+    style = "arbitrary" if k < 0.45 else ("integer" if k < 0.53 else "realistic")
     rows = []
-    int_ids = rng.random() < 0.3
+    int_ids = rng.random() < 0.3 or style == "integer"
     for i in range(n):
         p = _particle(rng, style)
         p["subtomo_id"] = float(rng.randint(1, 10 ** 6))
         if int_ids:
             for c in ID_COLS:
                 p[c] = p[c] + 0.0
-        sg = {s: p[e] for e, s in DOC_PAIRS}
+        sg = {s: p[e] + 0.0 if style == "integer" else p[e] for e, s in DOC_PAIRS}
         sg["motl_idx"] = float(i + 1) if rng.random() < 0.5 else sg["subtomo_num"]
         row = []
         for c in cols:
             row.append(rng.choice(["A", "B"]) if c == "halfset" else f2b(sg[c]))
         rows.append(row)
-    index = rng.choices(["range", "filtered", "shuffled", "offset"], [0.45, 0.2, 0.25, 0.1])[0]
-    if index == "filtered":
-        labels = sorted(rng.sample(range(0, 2 * n + 3), n))
-    elif index == "shuffled":
-        labels = list(range(n)); rng.shuffle(labels)
-    elif index == "offset":
-        off = rng.randint(1, 50); labels = list(range(off, off + n))
-    else:
-        labels = list(range(n))
+    repeated = "none"
+    if "subtomo_num" in cols and rng.random() < 0.15:
+        repeated = _repeat_rows(rng, rows, cols.index("subtomo_num"))
+    index = rng.choices(["range", "filtered", "shuffled", "offset", "duplicated"], [0.42, 0.18, 0.22, 0.1, 0.08])[0]
+    labels = _labels(rng, n, index)
     text_cell = None
-    if missing is None and rng.random() < 0.06:       # outside the quantifier: a text cell in one of the 14 numeric columns
+    if missing is None and not plain and rng.random() < 0.06:       # outside the quantifier: a text cell in one of the 14 numeric columns
         c = rng.choice([s for _, s in DOC_PAIRS])
         i = rng.randrange(n)
         rows[i][cols.index(c)] = rng.choice(["n/a", "x12", "--", "1,5"])
         text_cell = [i, c]
-    return dict(kind="import", cols=cols, rows=rows, extra=extra, missing=missing, int_ids=int_ids, index=index, labels=labels, text_cell=text_cell)
+    case = dict(kind="import", cols=cols, rows=rows, extra=extra, missing=missing, int_ids=int_ids, index=index, labels=labels, text_cell=text_cell)
+    if style == "integer":
+        case["int_all"] = True          # every numeric column of the table is int64
+    if repeated != "none":
+        case["repeated"] = repeated
+    return case
 
 
 def generate(rng, tier, n):
-    for _ in range(n):
+    fixed = []
+    if tier in ("quick", "thorough"):       # the boundary counts of the quantifier, both directions, on EVERY run (content is random)
+        for c in BOUNDARY_COUNTS:
+            e = _export_case(rng, tier, n=c)
+            if c >= 128:
+                e.pop("second", None)
+            fixed.append(e)
+            fixed.append(_import_case(rng, tier, n=c, plain=True))
+    fixed = fixed[:n]
+    for f in fixed:
+        yield f
+    for _ in range(n - len(fixed)):
         yield _import_case(rng, tier) if rng.random() < 0.2 else _export_case(rng, tier)
+
+
+def json_key(row):
+    return tuple(row)
 
 
 def _steps(case):
@@ -648,6 +977,25 @@ def shrink(case):
         return
     def sub(idx):
         return _sub_step(case, idx)
+    if n > 2:            # a repeated particle: keep one repeated pair (whole row, else subtomogram number) and nothing else
+        idc = 3 if case["kind"] == "export" else (case["cols"].index("subtomo_num") if "subtomo_num" in case["cols"] else None)
+        seen_row, seen_id = {}, {}
+        pair = None
+        for i, r in enumerate(rows):
+            k = json_key(r)
+            if k in seen_row:
+                pair = (seen_row[k], i); break
+            seen_row[k] = i
+        if pair is None and idc is not None:
+            for i, r in enumerate(rows):
+                if r[idc] in seen_id:
+                    pair = (seen_id[r[idc]], i); break
+                seen_id[r[idc]] = i
+        if pair is not None:
+            yield sub(list(pair))
+            other = next((k for k in range(n) if k not in pair and rows[k] != rows[pair[0]]), None)
+            if other is not None:
+                yield sub(sorted([pair[0], other, pair[1]]))
     if n > 1:
         yield sub(range(n // 2))
         yield sub(range(n // 2, n))
@@ -738,8 +1086,13 @@ def _snap(df):
 
 
 def _col_is_int(step, c):
+    """column c of the caller's frame is int64: it is one of the columns the case stores as integers (`int_cols`; the four id columns
+    when only `int_ids` is given) and all its values are whole numbers an int64 holds"""
     j = MOTL_COLS.index(c)
-    return bool(step["int_ids"]) and c in ID_COLS and all(b2f(r[j]).is_integer() and abs(b2f(r[j])) < 2 ** 62 for r in step["rows"])
+    ic = step.get("int_cols")
+    if ic is None:
+        ic = ID_COLS if step["int_ids"] else []
+    return c in ic and all(b2f(r[j]).is_integer() and abs(b2f(r[j])) < 2 ** 62 for r in step["rows"])
 
 
 def _build_motl_df(step):
@@ -756,22 +1109,23 @@ def _build_motl_df(step):
     return pd.DataFrame(data, index=list(step["labels"]))
 
 
-def _file_obs(path, cryomotl):
+def _file_obs(path, cryomotl, loader=None):
     o = {}
     blocks, err = _guard(lambda: parse_star(path))
     if err:
         return dict(err, stage="harness-parse")
     o["blocks"] = [b["spec"] for b in blocks]
     txt = open(path).read()
-    o["text"] = txt if len(txt) <= 400000 else None
+    o["text"] = txt if len(txt) <= STAR_TEXT_LIMIT else None
     blk = next((b for b in blocks if b["spec"] == SPECIFIER), None)
     if blk is not None:
         o["cols"], o["tokens"], o["loop"] = blk["cols"], blk["rows"], blk["loop"]
-    m2, err = _guard(lambda: cryomotl.StopgapMotl(path))
+    m2, err = _guard(lambda: (loader or cryomotl.StopgapMotl)(path))
     if err:
         o["load_error"] = err
     else:
         o["loaded"] = _frame(m2.df, MOTL_COLS)
+        o["loaded_type"] = type(m2).__name__
     return o
 
 
@@ -808,6 +1162,28 @@ def _run_export_step(step, df, td, cryomotl):
         f = _file_obs(p, cryomotl)
         f["after"] = _frame(m.df, MOTL_COLS)
         o["file"] = f
+        cp, err = _guard(lambda: cryomotl.StopgapMotl(m))          # the StopgapMotl(StopgapMotl) branch of the constructor: a copy
+        f["ctor_copy"] = err or dict(same=_frame(cp.df, MOTL_COLS)["rows"] == f["after"]["rows"], type=type(cp).__name__)
+    # the wrapper entry points sta.py / tmana.py use: Motl.write_out(path, "stopgap") and Motl.load(path, "stopgap") (no keywords to pass)
+    p3 = os.path.join(td, "c.star")
+    mt = step.get("wrap_kw", False)
+
+    def wrap_route():
+        w = cryomotl.Motl(df)
+        if mt:
+            w.write_out(p3, motl_type="stopgap")
+        else:
+            w.write_out(p3, "stopgap")
+        return w
+
+    w, err = _guard(wrap_route)
+    unchanged("Motl(df).write_out(path, 'stopgap')")
+    if err:
+        o["wrap"] = err
+    else:
+        h = _file_obs(p3, cryomotl, loader=(lambda q: cryomotl.Motl.load(q, motl_type="stopgap")) if mt else (lambda q: cryomotl.Motl.load(q, "stopgap")))
+        h["after"] = _frame(w.df, MOTL_COLS)
+        o["wrap"] = h
     p2 = os.path.join(td, "b.star")
     sg, err = _guard(lambda: cryomotl.emmotl2stopgap(df, p2, **_kw(step, update_coordinates="update", reset_index="reset")))
     unchanged("emmotl2stopgap")
@@ -851,7 +1227,8 @@ def run_impl(case):
             data[c] = np.array([b if isinstance(b, str) else b2f(b) for b in col], dtype=object)
         else:
             x = np.array([b2f(b) for b in col], dtype=np.float64)
-            if case["int_ids"] and c in ("subtomo_num", "tomo_num", "object", "class", "motl_idx") and all(float(v).is_integer() for v in x):
+            if ((case["int_ids"] and c in ("subtomo_num", "tomo_num", "object", "class", "motl_idx")) or case.get("int_all")) \
+                    and all(float(v).is_integer() and abs(float(v)) < 2 ** 62 for v in x):
                 x = x.astype(np.int64)
             data[c] = x
     sg_df = pd.DataFrame(data, index=list(case.get("labels") or range(len(case["rows"]))))
@@ -872,13 +1249,16 @@ def run_impl(case):
 
 
 def _star_text(f):
-    """text of a written file handed to the proved reader (files of up to ~100 particles; longer ones are read by the harness tokenizer only)"""
-    t = f.get("text") or ""
-    return t if len(t) <= 20000 else ""
+    """text of a written file handed to the proved reader (every file of the quantifier: up to 300 particles is ~70 000 characters)"""
+    return f.get("text") or ""
 
 
 def _import_routes(obs):
     return {k: v for k, v in obs.items() if k in ("ctor", "conv")}
+
+
+ROUTES = ("file", "conv", "wrap")
+PER_STEP = 1 + 2 * len(ROUTES)          # driver requests of one export step: mem + (model table, proved reader) per route
 
 
 def requests(case, obs):
@@ -892,8 +1272,8 @@ def requests(case, obs):
             m0 = dict(base, route="mem")
             if "rows" in mem and all(isinstance(c, (int, str)) for r in mem["rows"] for c in r):
                 m0["out"] = dict(cols=mem["cols"], rows=mem["rows"])
-            rq += [m0, dict(base, route="file"), dict(base, route="conv")]
-            for key in ("file", "conv"):           # the written file read by the PROVED reader (C02 model, Lean starRead)
+            rq += [m0] + [dict(base, route=key) for key in ROUTES]
+            for key in ROUTES:                     # the written file read by the PROVED reader (C02 model, Lean starRead)
                 rq.append(dict(op="star", text=_star_text(so.get(key) or {})))
         return rq
     rq = dict(op="import", table=dict(cols=case["cols"], rows=case["rows"]))
@@ -952,7 +1332,7 @@ def _direct_export_mem(step, table):
     for i, (src, row) in enumerate(zip(step["rows"], rows)):
         for e, s in DOC_PAIRS:
             a, b = src[MOTL_COLS.index(e)], row[ci[s]]
-            same = (a == b) if not _col_is_int(step, e) else (_num(b) is not None and b2f(a) == _num(b))
+            same = _num(b) is not None and b2f(a) == _num(b)       # equal VALUE; the statement says nothing about the dtype of a column
             if not same:
                 bad.append(("fields-copied", f"particle {i}: column {s} holds {_show(b)}, field {e} is {b2f(a)!r}")); break
         sid = b2f(src[3])
@@ -978,8 +1358,12 @@ def _tok(t):
 
 def _direct_update(step, after, update, label):
     """the list the object holds after the call, judged against the INPUT list: without update_coord every field unchanged; with it
-    (exact rational arithmetic on the float64 values) the complete position x+shift_x is preserved up to one rounding of the sum, the
-    new coordinate is an integer, the new shift lies in [-1/2, 1/2], an exact half is rounded away from zero, all other fields unchanged"""
+    (exact rational arithmetic on the float64 values) the complete position x+shift_x is preserved up to one rounding of the sum
+    (tolerance: ONE ulp of the float64 sum x+shift -- the code computes fl(x+sh) and fl(fl(x+sh) - r) with r an integer within 1/2 of
+    the sum, the subtraction is exact by Sterbenz / integer spacing, so the only rounding is that of the sum) and all other fields are
+    unchanged: these are clauses of C04 (`spec`).  That the new coordinate is an integer, the new shift lies in [-1/2, 1/2] and an
+    exact half goes away from zero is the ROUNDING RULE of update_coordinates, which the statement of C04 does not mention and C05
+    owns: a deviation there is reported as a disagreement with the model (`corr:` prefix), never as a violated clause of C04."""
     from fractions import Fraction
     N = len(step["rows"])
     if after["cols"] != MOTL_COLS:
@@ -995,7 +1379,7 @@ def _direct_update(step, after, update, label):
         for c in fixed:
             k = MOTL_COLS.index(c)
             a, b = src[k], row[k]
-            same = (a == b) if not _col_is_int(step, c) else b2f(a) == b2f(b)
+            same = b2f(a) == b2f(b)                                # equal VALUE, any numeric dtype
             if not same:
                 kind = "held-list" if c in [e for e, _ in DOC_PAIRS] else "held-list-other"
                 return [(kind, f"{label}: particle {i}: field {c} of the held list is {b2f(b)!r}, was passed as {b2f(a)!r}")]
@@ -1007,22 +1391,21 @@ def _direct_update(step, after, update, label):
             S = Fraction(x) + Fraction(sh)
             slack = Fraction(math.ulp(x + sh))
             if not x2.is_integer():
-                return [("update-integral", f"{label}: particle {i}: {c}={x2!r} after update_coord is no integer (was {x!r} + {sh!r})")]
+                return [("corr:update-integral", f"{label}: particle {i}: {c}={x2!r} after update_coord is no integer (was {x!r} + {sh!r})")]
             if abs(sh2) > 0.5:
-                return [("update-shift-range", f"{label}: particle {i}: {sc}={sh2!r} after update_coord exceeds 1/2 (was {x!r} + {sh!r})")]
+                return [("corr:update-shift-range", f"{label}: particle {i}: {sc}={sh2!r} after update_coord exceeds 1/2 (was {x!r} + {sh!r})")]
             if abs(Fraction(x2) + Fraction(sh2) - S) > slack:
                 return [("update-position", f"{label}: particle {i}: {c}+{sc} = {x2!r}+{sh2!r} after update_coord, was {x!r}+{sh!r}")]
             if S.denominator == 2 and Fraction(x2) != S + (Fraction(1, 2) if S > 0 else Fraction(-1, 2)):
-                return [("update-tie", f"{label}: particle {i}: {x!r}+{sh!r} is an exact half, rounded to {x2!r} (not away from zero)")]
+                return [("corr:update-tie", f"{label}: particle {i}: {x!r}+{sh!r} is an exact half, rounded to {x2!r} (not away from zero)")]
     return []
 
 
-def _direct_export_file(step, f, label):
+def _direct_export_file(step, f, label, reset):
     """via-file clauses: written file and re-loaded list against the list the object holds after write_out"""
     bad = []
     after = f["after"]["rows"]
     N = len(step["rows"])
-    reset = bool(step["reset"])
     if SPECIFIER not in f["blocks"] or "cols" not in f:
         return [("file-block", f"{label}: blocks {f['blocks']}")]
     cols, toks = f["cols"], f["tokens"]
@@ -1071,7 +1454,7 @@ def _max_dev(obs):
     """largest |reloaded - held| / tol over the 14 shared fields (<= 1 means within STAR precision)"""
     d = 0.0
     for so in obs.get("steps", []):
-        for key in ("file", "conv"):
+        for key in ROUTES:
             f = so.get(key) or {}
             if "loaded" in f and "after" in f and len(f["loaded"]["rows"]) == len(f["after"]["rows"]) and f["loaded"]["cols"] == MOTL_COLS == f["after"]["cols"]:
                 for ra, rl in zip(f["after"]["rows"], f["loaded"]["rows"]):
@@ -1085,27 +1468,25 @@ def _max_dev(obs):
     return d
 
 
-def _expected_mem_dtypes(step):
-    reset = bool(step["reset"])
-    exp = {s: ("int64" if _col_is_int(step, e) else "float64") for e, s in DOC_PAIRS}
-    exp["motl_idx"] = "int64" if reset else exp["subtomo_num"]
-    return exp
-
-
 def _judge_export_step(step, so, resps, tag, F):
-    m0, m1, m2, s1, s2 = resps
+    m0, m1, m2, m3, s1, s2, s3 = resps
     nonint = any(not b2f(r[3]).is_integer() for r in step["rows"])
-    for r in (m0, m1, m2):
+    for r in (m0, m1, m2, m3):
         if "error" in r:
             F("corr", "model-rejects", f"{tag}{r.get('error')}")
             return
     for label in so.get("mutated", []):
-        F("spec", "input-mutated", f"{tag}{label} changed the caller's DataFrame (values, dtypes, columns or index) in place")
+        # the statement does not mention the caller's object (item 7 of audit 2): a disagreement with the model, which never touches
+        # its input, not a violated clause
+        F("corr", "input-mutated", f"{tag}{label} changed the caller's DataFrame (values, dtypes, columns or index) in place")
     want = dict(reset=bool(step["reset"]), update=bool(step["update"]))
-    for r, route in ((m0, "mem"), (m1, "file"), (m2, "conv")):
+    wants = {"mem": dict(want, update=False), "file": want, "conv": want, "wrap": dict(reset=False, update=False)}   # the wrapper passes no keyword
+    for r, route in ((m0, "mem"), (m1, "file"), (m2, "conv"), (m3, "wrap")):
         eff = dict(r["eff"], update=False if route == "mem" else r["eff"]["update"])
-        if eff != dict(want, update=False if route == "mem" else want["update"]):
-            F("corr", "defaults-vs-model", f"{tag}{route}: keywords {step['reset']!r}/{step['update']!r} mean {want} by the documented defaults, the model (source defaults) uses {r['eff']}")
+        if eff != wants[route]:
+            F("corr", "defaults-vs-model", f"{tag}{route}: keywords {step['reset']!r}/{step['update']!r} mean {wants[route]} by the documented defaults, the model (source defaults) uses {r['eff']}")
+        if not r.get("round_agrees", True):
+            F("corr", "round-vs-exact-rule", f"{tag}{route}: the hardware rounding the driver executes disagrees with the proved exact rule ratRoundAway on a float sum x+shift of this list")
         if not r.get("decode_agrees", True):
             F("corr", "decode-vs-float", f"{tag}{route}: exact integer decoding of a subtomogram number disagrees with the hardware float (or float mod 2 with integer parity)")
     # ---- in memory: Lean verified checker + direct evaluation + model equality
@@ -1129,13 +1510,12 @@ def _judge_export_step(step, so, resps, tag, F):
         if not direct and not lean_bad:
             if mem["cols"] != m0["table"]["cols"] or mem["rows"] != m0["table"]["rows"]:
                 F("corr", "mem-vs-model", f"{tag}convert_to_sg_motl output differs from the model table outside the property's clauses")
-            exp = _expected_mem_dtypes(step)
-            odd = {c: mem["dtypes"].get(c) for c in exp if mem["dtypes"].get(c) != exp[c]}
-            if odd:
-                F("corr", "dtype-vs-expected", f"{tag}in memory: column dtypes {odd}, expected {[exp[c] for c in odd]}")
-    # ---- via file (twice: StopgapMotl.write_out and emmotl2stopgap)
-    for key, mr, sr in (("file", m1, s1), ("conv", m2, s2)):
+            # dtypes of the columns are recorded in stats (the statement says nothing about them; a numeric field returned as TEXT is
+            # caught above by `fields-copied`)
+    # ---- via file (three routes: StopgapMotl.write_out, emmotl2stopgap, and the wrappers Motl.write_out / Motl.load)
+    for key, mr, sr in (("file", m1, s1), ("conv", m2, s2), ("wrap", m3, s3)):
         f = so[key]
+        w = wants[key]
         if "error" in f:
             F(*_err_finding(f, f"{tag}{key}")); continue
         # the proved reader against the harness tokenizer and the column typing (both only read the file the library wrote)
@@ -1149,9 +1529,12 @@ def _judge_export_step(step, so, resps, tag, F):
                 texty = sorted({c for r in sr["rows"] for c, cell in zip(sr["cols"], r) if cell[0] == "s"})
                 if texty != ["halfset"]:
                     F("corr", "lean-reader-column-typing", f"{tag}{key}: the proved STAR reader types columns {texty} as text (expected exactly halfset)")
-        bad = _direct_update(step, f["after"], want["update"], f"{tag}{key}")
+        cc = f.get("ctor_copy")
+        if cc is not None and not (cc.get("same") and cc.get("type") == "StopgapMotl"):
+            F("corr", "ctor-copy", f"{tag}{key}: StopgapMotl(<StopgapMotl>) does not hold a copy of the same particle list: {str(cc)[:200]}")
+        bad = _direct_update(step, f["after"], w["update"], f"{tag}{key}")
         if not bad:
-            bad = _direct_export_file(step, f, f"{tag}{key}")
+            bad = _direct_export_file(step, f, f"{tag}{key}", w["reset"])
         for cl, det in bad:
             if cl.startswith("corr:"):
                 F("corr", cl[5:], det)
@@ -1161,9 +1544,11 @@ def _judge_export_step(step, so, resps, tag, F):
                 F("spec", cl, det)
         if bad:
             continue
+        if key == "wrap" and f.get("loaded_type") != "StopgapMotl":
+            F("corr", "wrapper-type", f"{tag}wrap: Motl.load(path, 'stopgap') returned a {f.get('loaded_type')}")
         if f["after"]["rows"] != mr["updated"]:
             i = next((i for i, (a, b) in enumerate(zip(f["after"]["rows"], mr["updated"])) if a != b), -1)
-            F("corr", "list-after-write-vs-model", f"{tag}{key}: particle list held after the call (update_coord={step['update']}) differs from the model at particle {i}")
+            F("corr", "list-after-write-vs-model", f"{tag}{key}: particle list held after the call (update_coord={w['update']}) differs from the model at particle {i}")
             continue
         mt = mr["table"]
         if f["cols"] != mt["cols"]:
@@ -1189,19 +1574,19 @@ def judge(case, obs, resps):
         return out
     if case["kind"] == "export":
         steps = _steps(case)
-        if len(obs["steps"]) != len(steps) or len(resps) != 5 * len(steps):
+        if len(obs["steps"]) != len(steps) or len(resps) != PER_STEP * len(steps):
             F("corr", "harness-or-library-raised", f"{len(obs['steps'])} observed steps, {len(resps)} model answers for {len(steps)} steps")
             return out
         for k, step in enumerate(steps):
             tag = "" if len(steps) == 1 else (f"step {k + 1} of 2 (same paths" + (", caller's frame edited in place" if step.get("mode") == "mutate" else "") + "): ")
-            _judge_export_step(step, obs["steps"][k], resps[5 * k:5 * k + 5], tag, F)
+            _judge_export_step(step, obs["steps"][k], resps[PER_STEP * k:PER_STEP * (k + 1)], tag, F)
         return out
     # ---- import
     model = resps[0]
     routes = _import_routes(obs)
     text_cell = case.get("text_cell")
     for name in obs.get("mutated", []):
-        F("spec", "input-mutated", f"{name} changed the caller's STOPGAP DataFrame in place")
+        F("corr", "input-mutated", f"{name} changed the caller's STOPGAP DataFrame in place")
     if text_cell is not None:
         # outside the quantifier (a text cell in a numeric column): the model must reject it, nothing is demanded of the library
         if model.get("error") != "reject:text-in-numeric-column":
@@ -1227,7 +1612,7 @@ def judge(case, obs, resps):
         for i in range(N):
             for e, s in DOC_PAIRS:
                 a, b = case["rows"][i][ci[s]], o["rows"][i][MOTL_COLS.index(e)]
-                if a != b:
+                if _num(b) is None or b2f(a) != _num(b):          # equal VALUE; any numeric dtype is accepted
                     F("spec", "import-fields-copied", f"{name}: particle {i}: field {e} is {_show(b)}, column {s} holds {b2f(a)!r}"); done = True; break
             if done:
                 break
@@ -1248,11 +1633,6 @@ def judge(case, obs, resps):
             canon = lambda rows: [[(b if k in shared else ("fill" if (not isinstance(b, int) or math.isnan(b2f(b)) or b2f(b) == 0.0) else b)) for k, b in enumerate(r)] for r in rows]
             if canon(o["rows"]) != canon(model["motl"]):
                 F("corr", "import-vs-model", f"{name}: imported list differs from the model")
-            exp = {e: ("int64" if case["int_ids"] and s in ("subtomo_num", "tomo_num", "object", "class") and
-                       all(b2f(r[case["cols"].index(s)]).is_integer() for r in case["rows"]) else "float64") for e, s in DOC_PAIRS}
-            odd = {e: o["dtypes"].get(e) for e in exp if o["dtypes"].get(e) != exp[e]}
-            if odd:
-                F("corr", "dtype-vs-expected", f"{name}: field dtypes {odd}, expected {[exp[e] for e in odd]}")
     return out
 
 
@@ -1285,12 +1665,15 @@ def _id_kind(ids):
 
 def stats(case, obs, resps):
     n = len(case["rows"])
-    s = {"kind": case["kind"], "N": "1" if n == 1 else ("2-10" if n <= 10 else ("11-40" if n <= 40 else "41-300"))}
+    s = {"kind": case["kind"], "N": "1" if n == 1 else ("2-10" if n <= 10 else ("11-40" if n <= 40 else ("41-255" if n <= 255 else "256-300"))),
+         "N_boundary": str(n) if n in BOUNDARY_COUNTS else "other", "repeated_rows": case.get("repeated", "none")}
     opt = lambda v: "omitted" if v is None else str(bool(v))
     if case["kind"] == "export":
         ids = [b2f(r[3]) for r in case["rows"]]
         sec = case.get("second")
         s.update({"reset": opt(case["reset"]), "update": opt(case["update"]), "index": case["index"], "id_dtype": "int64" if case["int_ids"] else "float64",
+                  "int64_columns": "all" if case.get("int_cols") == MOTL_COLS else ("ids+coords" if case.get("int_cols") else ("ids" if case["int_ids"] else "none")),
+                  "wrapper_call": "keyword" if case.get("wrap_kw") else "positional",
                   "col_order": "canonical" if case["cols"] == MOTL_COLS else "shuffled",
                   "parity": "both" if len({_is_even(x) for x in ids}) == 2 else ("all-even" if _is_even(ids[0]) else "all-odd"),
                   "ids": "sequential" if ids == [float(i + 1) for i in range(n)] else "non-sequential", "id_values": _id_kind(ids),
@@ -1303,6 +1686,22 @@ def stats(case, obs, resps):
             mem = obs["steps"][0].get("mem", {})
             s["motl_idx_dtype"] = mem.get("dtypes", {}).get("motl_idx", "?")
             s["halfset_dtype"] = mem.get("dtypes", {}).get("halfset", "?")
+            # dtypes are observations, not clauses: recorded here, never judged (any numeric dtype with equal values is accepted)
+            s["mem_dtypes_of_14"] = ",".join(sorted({str(mem.get("dtypes", {}).get(c, "?")) for _, c in DOC_PAIRS}))
+            for key in ROUTES:
+                f = obs["steps"][0].get(key) or {}
+                if "loaded" in f:
+                    s[f"reloaded_dtypes_{key}"] = ",".join(sorted({str(f["loaded"]["dtypes"].get(e, "?")) for e, _ in DOC_PAIRS}))
+                s[f"route_{key}"] = "error" if "error" in f else ("load-error" if "load_error" in f else "ok")
+            if case["update"]:                     # exact halves of x+shift by sign and axis (the tie rule is exercised on both signs, all axes)
+                from fractions import Fraction
+                ties = set()
+                for r in case["rows"]:
+                    for c in "xyz":
+                        S = Fraction(b2f(r[MOTL_COLS.index(c)])) + Fraction(b2f(r[MOTL_COLS.index("shift_" + c)]))
+                        if S.denominator == 2:
+                            ties.add(("neg-" if S < 0 else "pos-") + c)
+                s["update_exact_halves"] = sorted(ties) or ["none"]
             if resps and len(resps) >= 2 and "updated" in resps[1] and resps[1].get("eff", {}).get("update"):
                 moved = sum(1 for a, b in zip(case["rows"], resps[1]["updated"]) if a != b)
                 s["update_moved"] = "some" if moved else "none"
@@ -1310,6 +1709,8 @@ def stats(case, obs, resps):
         routes = _import_routes(obs)
         s.update({"col_order": "documented" if case["cols"] == DOC_COLUMNS else "permuted", "extra_col": bool(case.get("extra")),
                   "missing_col": case.get("missing") or "none", "index": case.get("index", "range"), "text_cell": case.get("text_cell") is not None,
+                  "int64_columns": "all" if case.get("int_all") else ("ids" if case["int_ids"] else "none"),
+                  "field_dtypes": ",".join(sorted({str(o["dtypes"].get(e, "?")) for o in routes.values() if "dtypes" in o for e, _ in DOC_PAIRS})) or "-",
                   "outcome": ",".join(sorted({("reject" if "reject" in o else ("error" if "error" in o else "ok")) for o in routes.values()})) if "error" not in obs else "error"})
     return s
 
@@ -1356,10 +1757,14 @@ LEVEL_TEXT = ("Lean 4 theorems about an executable model of StopgapMotl.convert_
               "halfset_even_odd (over Int), halfset_even_odd_bits / check_parity_sound (on exactly decoded IEEE bit patterns, any sign and magnitude), "
               "motl_idx_spec, omitted_keywords + defaults_documented (an omitted reset_index / update_coord means False), model_spec, check_sound/check_complete "
               "(verified checker run on the real output), import_rows (any column order; a text cell or ragged table is rejected, never read as a fill value), "
+              "checkImport_sound/checkImport_complete (the import checker accepts exactly the lists meeting SpecImport), motlWriteOut_spec / via_file_wrappers "
+              "(the wrappers Motl.write_out / Motl.load with motl_type='stopgap'), updateCoord_recentred / updateCoord_rat / updateCoord_rat_ties (update_coord over "
+              "exact arithmetic: integer coordinate, |shift| <= 1/2, position kept, halves away from zero on both signs), "
               "fromSg_toSg, toSg_fromSg, export_update_coord, via_file and via_file_c02 (the file round trip PROVED from C02's typed_roundtrip for the C02 model "
               "of Starfile.write/read: star_layer_roundtrip discharges the former abstract hypothesis; only value<->digits conversion stays a parameter). "
               "Tied to the source by regenerated tables (pairs, columns, the halfset expression literals, statement order, motl_idx source, reset range, block "
-              "name, STAR precision, by-position assignment, eight signature defaults, digests of the normalised bodies of the eight entry points) and by an "
+              "name, STAR precision, by-position assignment, eight signature defaults, the 'stopgap' branches of Motl.write_out / Motl.load, one digest theorem per "
+              "entry point for the normalised bodies of the eight entry points -- annotations, message texts, local names and operator spellings neutralised) and by an "
               "exact differential run of the real code (in memory; via file to 5e-7) against the model, incl. two-step histories on the same paths / frame")
 LEVEL_NOTE = ("via_file_c02 is proved relative to the C02 model of the STAR layer; the numeric conversion value -> digits -> value (round(6), repr, to_numeric) is "
               "validated, not proved (file comparisons at tolerance 5e-7+16ulp); trusted: Lean kernel, translator AST extraction, harness STAR tokenizer, exact "
